@@ -143,7 +143,7 @@ pub fn build_spline<T: Fl, D: Dimension + RemoveAxis>(
         .extrapolate(extrapolate)
         .boundary(boundary::<T, D>(spec, &trailing));
     Interp1DBuilder::new(data)
-        .x(Array1::from(x.to_vec()))
+        .x(ax1(x))
         .strategy(strat)
         .build()
 }
@@ -155,7 +155,7 @@ pub fn build_linear<T: Fl, D: Dimension + RemoveAxis>(
 ) -> Result<Linear1D<T, D>, BuilderError> {
     let b = Interp1DBuilder::new(data).strategy(Linear::new().extrapolate(extrapolate));
     match x {
-        Some(x) => b.x(Array1::from(x.to_vec())).build(),
+        Some(x) => b.x(ax1(x)).build(),
         None => b.build(),
     }
 }
@@ -215,6 +215,464 @@ pub fn outcome_of<T: Fl, D: Dimension>(
     match r {
         Err(_) => Outcome::Panic,
         Ok(Err(e)) => Outcome::Err(interp_err_kind(&e)),
-        Ok(Ok(a)) => Outcome::Ok(a.shape().to_vec(), a.iter().map(|&v| canon_bits(v)).collect()),
+        Ok(Ok(a)) => Outcome::Ok(
+            a.shape().to_vec(),
+            a.iter().map(|&v| canon_bits(v)).collect(),
+        ),
+    }
+}
+
+// ---------------------------------------------------------------------------------------
+// entry point drivers
+
+use ndarray::{Ix2, IxDyn as Dyn};
+use ndarray_interp::interp1d::Interp1DStrategy;
+
+#[derive(Clone, Debug, PartialEq)]
+pub enum Fail {
+    Err(&'static str, String),
+    Panic(String),
+}
+
+impl Fail {
+    pub fn class(&self) -> String {
+        match self {
+            Fail::Err(k, _) => format!("Err({k})"),
+            Fail::Panic(_) => "panic".into(),
+        }
+    }
+    pub fn text(&self) -> String {
+        match self {
+            Fail::Err(k, m) => format!("Err({k}: {m})"),
+            Fail::Panic(m) => format!("panic({m})"),
+        }
+    }
+}
+
+fn flat<T: Fl>(
+    r: Result<Result<ArrayD<T>, InterpolateError>, String>,
+    q: usize,
+) -> Result<Array2<T>, Fail> {
+    match r {
+        Err(p) => Err(Fail::Panic(p)),
+        Ok(Err(e)) => Err(Fail::Err(interp_err_kind(&e), e.to_string())),
+        Ok(Ok(a)) => {
+            let l = if q == 0 { 0 } else { a.len() / q };
+            let v: Vec<T> = a.iter().cloned().collect();
+            Ok(Array2::from_shape_vec((q, l), v).expect("result reshape"))
+        }
+    }
+}
+
+pub const ENTRIES_1D: [&str; 4] = [
+    "interp",
+    "interp_array/Ix1",
+    "interp_array/Ix2",
+    "interp_array/IxDyn",
+];
+
+/// Evaluate all queries through one entry point of an interpolator over (n x L) data.
+/// The result is normalised to a (Q x L) matrix.
+pub fn eval_entry<T: Fl, S>(
+    ip: &Interp1D<OwnedRepr<T>, OwnedRepr<T>, Ix2, S>,
+    qs: &[T],
+    entry: &str,
+) -> Result<Array2<T>, Fail>
+where
+    S: Interp1DStrategy<OwnedRepr<T>, OwnedRepr<T>, Ix2>,
+{
+    let q = qs.len();
+    match entry {
+        "interp" => {
+            let r = crate::driver::catch(|| {
+                let mut rows: Vec<T> = vec![];
+                for &x in qs {
+                    match ip.interp(x) {
+                        Ok(a) => rows.extend(a.iter().cloned()),
+                        Err(e) => return Err(e),
+                    }
+                }
+                let l = if q == 0 { 0 } else { rows.len() / q };
+                Ok(ArrayD::from_shape_vec(Dyn(&[q, l]), rows).expect("rows"))
+            });
+            flat(r, q)
+        }
+        "interp_array/Ix1" => {
+            let qa = Array1::from(qs.to_vec());
+            flat(
+                crate::driver::catch(|| ip.interp_array(&qa).map(|a| a.into_dyn())),
+                q,
+            )
+        }
+        "interp_array/Ix2" => {
+            let shape = if q % 2 == 0 && q > 0 {
+                (q / 2, 2)
+            } else {
+                (q, 1)
+            };
+            let qa = Array2::from_shape_vec(shape, qs.to_vec()).expect("query shape");
+            flat(
+                crate::driver::catch(|| ip.interp_array(&qa).map(|a| a.into_dyn())),
+                q,
+            )
+        }
+        "interp_array/IxDyn" => {
+            let qa = ArrayD::from_shape_vec(Dyn(&[q]), qs.to_vec()).expect("query shape");
+            flat(
+                crate::driver::catch(|| ip.interp_array(&qa).map(|a| a.into_dyn())),
+                q,
+            )
+        }
+        _ => unreachable!("unknown entry {entry}"),
+    }
+}
+
+/// The same logical (n x L) matrix in different memory layouts: C order, F order, and
+/// "lanes reversed in memory" (contiguous, negative stride along the lane axis).
+pub fn layouts2<T: Fl>(data: &Array2<T>) -> Vec<(&'static str, Array2<T>)> {
+    let (n, l) = data.dim();
+    let mut f = Array2::<T>::zeros(ndarray::ShapeBuilder::f((n, l)));
+    f.assign(data);
+    let mut rev = Array2::from_shape_fn((n, l), |(i, j)| data[[i, l - 1 - j]]);
+    rev.invert_axis(ndarray::Axis(1));
+    debug_assert!(rev == *data && f == *data);
+    vec![("C", data.clone()), ("F", f), ("rev", rev)]
+}
+
+// ---------------------------------------------------------------------------------------
+// 2-D
+
+use ndarray::{Array3, Ix3};
+use ndarray_interp::interp2d::{Bilinear, Interp2D, Interp2DBuilder, Interp2DStrategy};
+
+pub type Bilin2D<T, D> = Interp2D<OwnedRepr<T>, OwnedRepr<T>, OwnedRepr<T>, D, Bilinear>;
+
+pub fn build_bilinear<T: Fl, D>(
+    x: Option<&[T]>,
+    y: Option<&[T]>,
+    data: Array<T, D>,
+    extrapolate: bool,
+) -> Result<Bilin2D<T, D>, BuilderError>
+where
+    D: Dimension + RemoveAxis,
+    D::Smaller: RemoveAxis,
+{
+    let b = Interp2DBuilder::new(data).strategy(Bilinear::new().extrapolate(extrapolate));
+    match (x, y) {
+        (Some(x), Some(y)) => b
+            .x(ax1(x))
+            .y(ax1(y))
+            .build(),
+        (Some(x), None) => b.x(ax1(x)).build(),
+        (None, Some(y)) => b.y(ax1(y)).build(),
+        (None, None) => b.build(),
+    }
+}
+
+pub const ENTRIES_2D: [&str; 4] = [
+    "interp",
+    "interp_array/Ix1",
+    "interp_array/Ix2",
+    "interp_array/IxDyn",
+];
+
+/// Evaluate all (qx, qy) pairs through one entry point of a 2-D interpolator over (nx x ny x L)
+/// data. The result is normalised to (Q x L).
+pub fn eval_entry2<T: Fl, S>(
+    ip: &Interp2D<OwnedRepr<T>, OwnedRepr<T>, OwnedRepr<T>, Ix3, S>,
+    qx: &[T],
+    qy: &[T],
+    entry: &str,
+) -> Result<Array2<T>, Fail>
+where
+    S: Interp2DStrategy<OwnedRepr<T>, OwnedRepr<T>, OwnedRepr<T>, Ix3>,
+{
+    let q = qx.len();
+    assert_eq!(q, qy.len());
+    match entry {
+        "interp" => {
+            let r = crate::driver::catch(|| {
+                let mut rows: Vec<T> = vec![];
+                for (&x, &y) in qx.iter().zip(qy) {
+                    match ip.interp(x, y) {
+                        Ok(a) => rows.extend(a.iter().cloned()),
+                        Err(e) => return Err(e),
+                    }
+                }
+                let l = if q == 0 { 0 } else { rows.len() / q };
+                Ok(ArrayD::from_shape_vec(Dyn(&[q, l]), rows).expect("rows"))
+            });
+            flat(r, q)
+        }
+        "interp_array/Ix1" => {
+            let (xa, ya) = (Array1::from(qx.to_vec()), Array1::from(qy.to_vec()));
+            flat(
+                crate::driver::catch(|| ip.interp_array(&xa, &ya).map(|a| a.into_dyn())),
+                q,
+            )
+        }
+        "interp_array/Ix2" => {
+            let shape = if q % 2 == 0 && q > 0 { (q / 2, 2) } else { (q, 1) };
+            let xa = Array2::from_shape_vec(shape, qx.to_vec()).expect("query shape");
+            let ya = Array2::from_shape_vec(shape, qy.to_vec()).expect("query shape");
+            flat(
+                crate::driver::catch(|| ip.interp_array(&xa, &ya).map(|a| a.into_dyn())),
+                q,
+            )
+        }
+        "interp_array/IxDyn" => {
+            let xa = ArrayD::from_shape_vec(Dyn(&[q]), qx.to_vec()).expect("query shape");
+            let ya = ArrayD::from_shape_vec(Dyn(&[q]), qy.to_vec()).expect("query shape");
+            flat(
+                crate::driver::catch(|| ip.interp_array(&xa, &ya).map(|a| a.into_dyn())),
+                q,
+            )
+        }
+        _ => unreachable!("unknown entry {entry}"),
+    }
+}
+
+/// The same logical (nx x ny x L) array in different memory layouts.
+pub fn layouts3<T: Fl>(data: &Array3<T>) -> Vec<(&'static str, Array3<T>)> {
+    let (nx, ny, l) = data.dim();
+    let mut f = Array3::<T>::zeros(ndarray::ShapeBuilder::f((nx, ny, l)));
+    f.assign(data);
+    // x and y exchanged in memory: stored as (ny, nx, L) in C order, viewed as (nx, ny, L)
+    let sw = Array3::from_shape_fn((ny, nx, l), |(j, i, k)| data[[i, j, k]]).permuted_axes([1, 0, 2]);
+    // lanes reversed in memory
+    let mut rev = Array3::from_shape_fn((nx, ny, l), |(i, j, k)| data[[i, j, l - 1 - k]]);
+    rev.invert_axis(ndarray::Axis(2));
+    // y reversed in memory
+    let mut revy = Array3::from_shape_fn((nx, ny, l), |(i, j, k)| data[[i, ny - 1 - j, k]]);
+    revy.invert_axis(ndarray::Axis(1));
+    debug_assert!(f == *data && sw == *data && rev == *data && revy == *data);
+    vec![
+        ("C", data.clone()),
+        ("F", f),
+        ("xy-swapped", sw),
+        ("lanes-rev", rev),
+        ("y-rev", revy),
+    ]
+}
+
+// ---------------------------------------------------------------------------------------
+// general call drivers: any entry point x any query shape (static rank 0..4 or dynamic)
+
+use ndarray::{Ix0, Ix1, Ix4};
+
+pub const CALLS: [&str; 6] = [
+    "interp",
+    "interp_into",
+    "interp_array/static",
+    "interp_array/dyn",
+    "interp_array_into/static",
+    "interp_array_into/dyn",
+];
+
+fn shaped<T: Fl, D: Dimension>(qs: &[T], shape: &[usize]) -> Array<T, D> {
+    ArrayD::from_shape_vec(Dyn(shape), qs.to_vec())
+        .expect("query shape")
+        .into_dimensionality::<D>()
+        .expect("query rank")
+}
+
+fn buf_for<T: Fl, D: Dimension>(shape: &[usize], trailing: &[usize]) -> Array<T, D> {
+    let mut s = shape.to_vec();
+    s.extend_from_slice(trailing);
+    // poison so that unwritten elements are visible
+    ArrayD::from_elem(Dyn(&s), T::from_f64_lossy(-777.25))
+        .into_dimensionality::<D>()
+        .expect("buffer rank")
+}
+
+/// Call one entry point of a 1-D interpolator over (n x L) data with the queries `qs` arranged
+/// in `qshape`. Result normalised to (Q x L).
+pub fn call1d<T: Fl, S>(
+    ip: &Interp1D<OwnedRepr<T>, OwnedRepr<T>, Ix2, S>,
+    qs: &[T],
+    qshape: &[usize],
+    l: usize,
+    call: &str,
+) -> Result<Array2<T>, Fail>
+where
+    S: Interp1DStrategy<OwnedRepr<T>, OwnedRepr<T>, Ix2>,
+{
+    let q = qs.len();
+    assert_eq!(q, qshape.iter().product::<usize>());
+    macro_rules! arr {
+        ($dq:ty) => {{
+            let qa: Array<T, $dq> = shaped(qs, qshape);
+            flat(
+                crate::driver::catch(|| ip.interp_array(&qa).map(|a| a.into_dyn())),
+                q,
+            )
+        }};
+    }
+    macro_rules! arr_into {
+        ($dq:ty, $dout:ty) => {{
+            let qa: Array<T, $dq> = shaped(qs, qshape);
+            let mut buf: Array<T, $dout> = buf_for(qshape, &[l]);
+            let r = crate::driver::catch(|| ip.interp_array_into(&qa, buf.view_mut()));
+            flat(r.map(|r| r.map(|_| buf.into_dyn())), q)
+        }};
+    }
+    match call {
+        "interp" => {
+            let r = crate::driver::catch(|| {
+                let mut rows: Vec<T> = vec![];
+                for &x in qs {
+                    match ip.interp(x) {
+                        Ok(a) => rows.extend(a.iter().cloned()),
+                        Err(e) => return Err(e),
+                    }
+                }
+                Ok(ArrayD::from_shape_vec(Dyn(&[q, l]), rows).expect("rows"))
+            });
+            flat(r, q)
+        }
+        "interp_into" => {
+            let r = crate::driver::catch(|| {
+                let mut rows: Vec<T> = vec![];
+                for &x in qs {
+                    let mut buf = Array1::from_elem(l, T::from_f64_lossy(-777.25));
+                    match ip.interp_into(x, buf.view_mut()) {
+                        Ok(()) => rows.extend(buf.iter().cloned()),
+                        Err(e) => return Err(e),
+                    }
+                }
+                Ok(ArrayD::from_shape_vec(Dyn(&[q, l]), rows).expect("rows"))
+            });
+            flat(r, q)
+        }
+        "interp_array/static" => match qshape.len() {
+            0 => arr!(Ix0),
+            1 => arr!(Ix1),
+            2 => arr!(Ix2),
+            3 => arr!(Ix3),
+            4 => arr!(Ix4),
+            _ => unreachable!(),
+        },
+        "interp_array/dyn" => arr!(Dyn),
+        "interp_array_into/static" => match qshape.len() {
+            0 => arr_into!(Ix0, Ix1),
+            1 => arr_into!(Ix1, Ix2),
+            2 => arr_into!(Ix2, Ix3),
+            3 => arr_into!(Ix3, Ix4),
+            4 => arr_into!(Ix4, ndarray::Ix5),
+            _ => unreachable!(),
+        },
+        "interp_array_into/dyn" => arr_into!(Dyn, Dyn),
+        _ => unreachable!("unknown call {call}"),
+    }
+}
+
+/// Same for a 2-D interpolator over (nx x ny x L) data.
+#[allow(clippy::too_many_arguments)]
+pub fn call2d<T: Fl, S>(
+    ip: &Interp2D<OwnedRepr<T>, OwnedRepr<T>, OwnedRepr<T>, Ix3, S>,
+    qx: &[T],
+    qy: &[T],
+    qshape: &[usize],
+    l: usize,
+    call: &str,
+) -> Result<Array2<T>, Fail>
+where
+    S: Interp2DStrategy<OwnedRepr<T>, OwnedRepr<T>, OwnedRepr<T>, Ix3>,
+{
+    let q = qx.len();
+    assert_eq!(q, qshape.iter().product::<usize>());
+    assert_eq!(q, qy.len());
+    macro_rules! arr {
+        ($dq:ty) => {{
+            let xa: Array<T, $dq> = shaped(qx, qshape);
+            let ya: Array<T, $dq> = shaped(qy, qshape);
+            flat(
+                crate::driver::catch(|| ip.interp_array(&xa, &ya).map(|a| a.into_dyn())),
+                q,
+            )
+        }};
+    }
+    macro_rules! arr_into {
+        ($dq:ty, $dout:ty) => {{
+            let xa: Array<T, $dq> = shaped(qx, qshape);
+            let ya: Array<T, $dq> = shaped(qy, qshape);
+            let mut buf: Array<T, $dout> = buf_for(qshape, &[l]);
+            let r = crate::driver::catch(|| ip.interp_array_into(&xa, &ya, buf.view_mut()));
+            flat(r.map(|r| r.map(|_| buf.into_dyn())), q)
+        }};
+    }
+    match call {
+        "interp" => {
+            let r = crate::driver::catch(|| {
+                let mut rows: Vec<T> = vec![];
+                for (&x, &y) in qx.iter().zip(qy) {
+                    match ip.interp(x, y) {
+                        Ok(a) => rows.extend(a.iter().cloned()),
+                        Err(e) => return Err(e),
+                    }
+                }
+                Ok(ArrayD::from_shape_vec(Dyn(&[q, l]), rows).expect("rows"))
+            });
+            flat(r, q)
+        }
+        "interp_into" => {
+            let r = crate::driver::catch(|| {
+                let mut rows: Vec<T> = vec![];
+                for (&x, &y) in qx.iter().zip(qy) {
+                    let mut buf = Array1::from_elem(l, T::from_f64_lossy(-777.25));
+                    match ip.interp_into(x, y, buf.view_mut()) {
+                        Ok(()) => rows.extend(buf.iter().cloned()),
+                        Err(e) => return Err(e),
+                    }
+                }
+                Ok(ArrayD::from_shape_vec(Dyn(&[q, l]), rows).expect("rows"))
+            });
+            flat(r, q)
+        }
+        "interp_array/static" => match qshape.len() {
+            0 => arr!(Ix0),
+            1 => arr!(Ix1),
+            2 => arr!(Ix2),
+            3 => arr!(Ix3),
+            4 => arr!(Ix4),
+            _ => unreachable!(),
+        },
+        "interp_array/dyn" => arr!(Dyn),
+        "interp_array_into/static" => match qshape.len() {
+            0 => arr_into!(Ix0, Ix1),
+            1 => arr_into!(Ix1, Ix2),
+            2 => arr_into!(Ix2, Ix3),
+            3 => arr_into!(Ix3, Ix4),
+            4 => arr_into!(Ix4, ndarray::Ix5),
+            _ => unreachable!(),
+        },
+        "interp_array_into/dyn" => arr_into!(Dyn, Dyn),
+        _ => unreachable!("unknown call {call}"),
+    }
+}
+
+
+// ---------------------------------------------------------------------------------------
+// axis storage
+
+thread_local! {
+    static AXIS_REV: std::cell::Cell<bool> = const { std::cell::Cell::new(false) };
+}
+
+/// When set, every axis handed to a builder by this module is an owned array whose memory
+/// order is reversed (negative stride) - same logical contents.
+pub fn set_axis_reversed_in_memory(on: bool) {
+    AXIS_REV.with(|c| c.set(on));
+}
+
+pub fn ax1<T: Fl>(x: &[T]) -> Array1<T> {
+    if AXIS_REV.with(|c| c.get()) {
+        let mut r: Vec<T> = x.to_vec();
+        r.reverse();
+        let mut a = Array1::from(r);
+        a.invert_axis(ndarray::Axis(0));
+        a
+    } else {
+        Array1::from(x.to_vec())
     }
 }
